@@ -467,12 +467,11 @@ impl BRC20ProgEngine {
 
             core::mem::swap(&mut *db, evm.ctx().db_mut());
 
-            let cumulative_gas_used = self
-                .last_block_info
-                .read()
-                .gas_used
+            // Read once: two read guards alive in one expression deadlock with a queued writer
+            let gas_used_so_far = self.last_block_info.read().gas_used;
+            let cumulative_gas_used = gas_used_so_far
                 .checked_add(output.as_ref().map(|o| o.gas_used()).unwrap_or(0))
-                .unwrap_or(self.last_block_info.read().gas_used);
+                .unwrap_or(gas_used_so_far);
 
             let traces: TraceED = evm
                 .inspector()
